@@ -22,6 +22,8 @@ def trees(tier):
         d, n = twins.make(corpus.CORE, name)
         _twin_dirs[name] = d
         out.append((name, d))
+    from .c01 import MINI
+    out += [("mini:" + "+".join(m), corpus.mini(m)[0]) for m in MINI]
     return out
 
 
@@ -31,7 +33,7 @@ def programs(tier):
 
 def on_generator_failure(run, name, xml_dir, msg):
     """A twin that only spells defaults explicitly must be accepted exactly like the core tree."""
-    if name == "core":
+    if name == "core" or name.startswith("mini:") or name.startswith("pairs"):
         return False
     err = msg.strip().splitlines()[-1] if msg.strip() else "generator failed"
     v = {"kind": "generator", "label": f"generator rejects the twin tree '{name}' (explicit boolean default changes behaviour)",
@@ -55,6 +57,13 @@ def jobs(tier):
     for c in pcls:
         js.append(dict(name=f"wire[pairs:{c['name']}]", fn="wire", args=[corpus.closure(ptypes, c["instrs"]), c, pcfg], tree="pairs", collect_models=1,
                        expect=["serialized length equals the prescribed length"]))
+    # core classes generated in isolation (a tree of their own): order effects inside the generator
+    from .c01 import MINI
+    for m in MINI:
+        _, mtypes, mcls = corpus.mini(m)
+        for c in mcls:
+            js.append(dict(name=f"wire[mini:{c['name']}]", fn="wire", args=[corpus.closure(mtypes, c["instrs"]), c, {"lens": [0, 1], "counts": [0, 1, 2, 3]}],
+                           tree="mini:" + "+".join(m), collect_models=1, expect=["serialized length equals the prescribed length"]))
     # the same generated structs in the other file layout (structs in the root file, every type they use defined in a later-walked file)
     _, btypes, bcls = corpus.pairs(tier, corpus.seed() + 1, 60 if tier == "quick" else None, False, "B")
     for c in bcls:
